@@ -127,6 +127,36 @@ Proof.
   - repeat constructor; vm_compute; try reflexivity; try (intros; discriminate); try congruence; lia.
 Qed.
 
+(* the guards of the generator (2c39fad): a first line that starts with `> `, a line that starts with `$ ` and an escaped rendering
+   that ends in ` (no-eol)` are written with one character as an escape sequence (Generate.guarded_line / written_line).  Where no
+   guard applies -- the premises of the read-back theorems above, which used to name listed known findings -- the documents the
+   implementation writes are the documents of those theorems. *)
+Theorem C09_guarded_cram_document_same : forall m title cmd conts lines code, Forall (no_suffix_collision m) lines ->
+  (match lines with l :: _ => starts_with P_GT (expectation_line m l) = false | [] => True end) ->
+  Forall (fun l => starts_with P_DOLLAR (expectation_line m l) = false) lines ->
+  gen_cram_doc_g m title cmd conts lines code = gen_cram_doc m title cmd conts lines code.
+Proof. exact gen_cram_doc_g_same. Qed.
+Theorem C09_guarded_markdown_document_same : forall m title cmd conts lines code, Forall (no_suffix_collision m) lines ->
+  (match lines with l :: _ => starts_with P_GT (expectation_line m l) = false | [] => True end) ->
+  Forall (fun l => starts_with P_DOLLAR (expectation_line m l) = false) lines ->
+  gen_md_doc_g m None title cmd conts lines code = gen_md_doc m title cmd conts lines code.
+Proof. exact gen_md_doc_g_same. Qed.
+(* .. and where a guard applies, what is written reads back as an escaped expectation for that very line *)
+Example C09_guard_instances :
+  guarded_line true false Unicode [62; 32; 102; 10] = [92; 120; 51; 101; 32; 102] ++ S_ESCAPED                 (* > f   ->  \x3e f (escaped) *)
+  /\ guarded_line false true Ascii [36; 32; 121; 10] = [92; 120; 50; 52; 32; 121] ++ S_ESCAPED                 (* $ y   ->  \x24 y (escaped) *)
+  /\ guarded_line false false Unicode [62; 32; 102; 10] = [62; 32; 102]                                        (* not the first line: as it is *)
+  /\ written_line Unicode ([9; 102] ++ S_NOEOL ++ [10]) = [92; 116; 102; 32; 40; 110; 111; 45; 101; 111; 108] ++ X29 ++ S_ESCAPED
+  /\ (exists r, parse (fun x => x) (fun _ => true) (fun x => x) (guarded_line true false Unicode [62; 32; 102; 10]) = POk (mkE r false false)
+                /\ rule_matches r [62; 32; 102; 10] = true /\ rule_matches r [62; 32; 103; 10] = false)
+  /\ (exists r, parse (fun x => x) (fun _ => true) (fun x => x) (written_line Unicode ([9; 102] ++ S_NOEOL ++ [10])) = POk (mkE r false false)
+                /\ rule_matches r ([9; 102] ++ S_NOEOL ++ [10]) = true /\ rule_matches r [9; 102; 10] = false).
+Proof.
+  repeat split; try (vm_compute; reflexivity).
+  - eexists. split; [vm_compute; reflexivity|]. split; vm_compute; reflexivity.
+  - eexists. split; [vm_compute; reflexivity|]. split; vm_compute; reflexivity.
+Qed.
+
 (* the determinism premise is needed -- the listed known finding: a kept optional-multiline expectation followed by an
    overlapping one.  lines 1 2; expectations  1(optional multiline), 9, any-single-line *)
 Example C09_regen_greedy_refuted :
@@ -164,4 +194,6 @@ Print Assumptions C09_generated_expectations_pass.
 Print Assumptions C09_cram_test_reads_back.
 Print Assumptions C09_markdown_test_reads_back.
 Print Assumptions C09_cram_tests_read_back.
+Print Assumptions C09_guarded_cram_document_same.
+Print Assumptions C09_guarded_markdown_document_same.
 Print Assumptions C09_markdown_tests_read_back.
